@@ -274,6 +274,38 @@ def history_case(draw):
     return {"sets": [{"segments": x["segments"], "reverse": x["reverse"]} for x in sets], "mult": first["mult"], "ss": first["ss"]}
 
 
+@st.composite
+def huge_set(draw):
+    """more segments than any bounded look-back would scan: segments along a diagonal from few draws, keys distinct"""
+    n = draw(st.sampled_from([258, 300, 420]))
+    rev = draw(st.booleans())
+    step = draw(st.integers(30, 60))
+    ln = draw(st.integers(5, 40))
+    off = draw(st.lists(st.integers(-200, 200), min_size=7, max_size=13))
+    segs = []
+    for i in range(n):
+        rs = 1000 + i * step
+        qs = rs + off[i % len(off)] + (i * i) % 17
+        segs.append({"rs": rs, "re": rs + ln + (i % 5), "qs": qs, "qe": qs + ln + (i % 3), "score": 1 + (i * 7) % 40})
+    # two strong segments far apart in the pre-order that chain well with each other
+    a, b = draw(st.integers(0, 20)), draw(st.integers(n - 20, n - 1))
+    segs[a] = {"rs": 100, "re": 900, "qs": 100, "qe": 900, "score": 5000}
+    segs[b] = {"rs": 1000 + n * step + 50, "re": 1000 + n * step + 900, "qs": 1000 + n * step + 50, "qe": 1000 + n * step + 900, "score": 5000}
+    keys = set()
+    out = []
+    for sg in segs:
+        if key_of(sg) in keys:
+            continue
+        keys.add(key_of(sg))
+        out.append(sg)
+    order = draw(st.sampled_from(["given", "reversed", "interleaved"]))
+    if order == "reversed":
+        out = out[::-1]
+    elif order == "interleaved":
+        out = out[::2] + out[1::2]
+    return {"segments": out, "reverse": rev, "ss": draw(st.sampled_from([0, 1])), "mult": draw(st.sampled_from([1, 0.5]))}
+
+
 def pair_grid(maxlen, unit=1):
     """every pair of segments on a 1 bp grid: lengths 0..maxlen on each map (0 on both or >0 on both), second segment
     starting from 2 bp after the first one's end down to its start - 1, independently on the two maps"""
@@ -316,6 +348,8 @@ def subchecks(tier):
             required_classes=("tied-keys", "reverse", "ss=1")),
         Sub("chainer-history", "hyp", check_history, strategy=history_case, examples=8000 if q else 150000, shrink_budget=600,
             describe="one chainer/scorer instance reused for 2-3 segment sets (the later ones partly derived from the earlier)"),
+        Sub("huge-dp", "hyp", lambda c: check(c, brute=False), strategy=huge_set, examples=48 if q else 1200, shrink_budget=10,
+            describe="258-420 segments (two long ones that belong together with hundreds of weak ones between them in key order), independent DP"),
         Sub("large-dp", "hyp", lambda c: check(c, brute=False), strategy=lambda: seg_set(40, big=True),
             examples=4000 if q else 60000, describe="<=40 segments, distinct keys, independent DP", shrink_budget=400),
     ]
